@@ -369,11 +369,33 @@ struct Simplifier {
                 yield({GateType::CX, {}, ts, inst.tag});
                 yield({GateType::S, {}, qs2_buf, inst.tag});
                 break;
-            case GateType::CZ:
-                yield({GateType::H, {}, qs2_buf, inst.tag});
-                yield({GateType::CX, {}, ts, inst.tag});
-                yield({GateType::H, {}, qs2_buf, inst.tag});
+            case GateType::CZ: {
+                // CZ is symmetric, but CX needs a classical bit to be its control: put the bit first.
+                // A CZ between two classical bits has no effect.
+                qs2_buf.clear();
+                size_t n = 0;
+                for (size_t k = 0; k < plain_buf.size(); k += 2) {
+                    GateTarget a = plain_buf[k];
+                    GateTarget b = plain_buf[k + 1];
+                    if (!a.has_qubit_value() && !b.has_qubit_value()) {
+                        continue;
+                    }
+                    if (!b.has_qubit_value()) {
+                        std::swap(a, b);
+                    }
+                    plain_buf[n++] = a;
+                    plain_buf[n++] = b;
+                    qs2_buf.push_back(b);
+                }
+                plain_buf.resize(n);
+                ts = plain_buf;
+                if (!ts.empty()) {
+                    yield({GateType::H, {}, qs2_buf, inst.tag});
+                    yield({GateType::CX, {}, ts, inst.tag});
+                    yield({GateType::H, {}, qs2_buf, inst.tag});
+                }
                 break;
+            }
             case GateType::SQRT_XX:
                 yield({GateType::H, {}, qs1_buf, inst.tag});
                 yield({GateType::CX, {}, ts, inst.tag});
